@@ -29,7 +29,9 @@ def level_float(level: str) -> float:
 
 
 def level_exact(level: str) -> Fraction:
-    return Fraction(level)
+    """the level the model computes with: the decimal the float prints as (what `Decimal(str(level))` in
+    quantile_upper sees); exact for dyadic levels, 0.3 -> 3/10, float(2/3) -> 0.6666666666666666"""
+    return Fraction(Decimal(repr(level_float(level))))
 
 
 def call_iso(case):
@@ -91,7 +93,7 @@ def merge_near(x, r, tol):
     return out
 
 
-def compare_xr(io, mo, exact: bool, tol=1e-9):
+def compare_xr(io, mo, exact: bool, tol=1e-9, with_r=True):
     if ("err" in io) != ("err" in mo):
         return f"outcome differs: implementation {io.get('err', 'ok')} vs model {mo.get('err', 'ok')}"
     if "err" in io:
@@ -105,12 +107,14 @@ def compare_xr(io, mo, exact: bool, tol=1e-9):
         for i, (a, b) in enumerate(zip(io["x"], xm)):
             if Fraction(a) != b:
                 return f"x[{i}] = {a!r} but the model (exact) gives {b}"
-        if list(io["r"]) != list(mo["r"]):
+        if with_r and list(io["r"]) != list(mo["r"]):
             return f"block vector differs: {io['r']} vs model {mo['r']}"
         return None
     for i, (a, b) in enumerate(zip(io["x"], xm)):
         if not close(a, b, tol, tol):
             return f"x[{i}] = {a!r} but the model gives {float(b)!r}"
+    if not with_r:
+        return None
     ri = merge_near(io["x"], io["r"], 1e-7)
     rm = merge_near([float(v) for v in xm], mo["r"], 1e-7)
     if ri != rm:
